@@ -138,7 +138,7 @@ let dec_env limit tgs pls : env =
     en_plugins = List.map (fun p -> match split ':' p with
         | [ty; v; rw] -> { pl_type = unhex ty; pl_version = unhex v;
                            pl_rw = List.map (fun r -> match split '~' r with
-                               | [p; k; a] -> { rw_path = unhex p; rw_iskey = (k = "1"); rw_attr = unhex a }
+                               | [p; k; a; o] -> { rw_path = unhex p; rw_iskey = (k = "1"); rw_attr = unhex a; rw_opts = List.map n_of_dec (list_of '+' o) }
                                | _ -> failwith "rw") (list_of ',' rw) }
         | _ -> failwith "pl") (list_of ';' pls) }
 
